@@ -24,9 +24,27 @@ pub mod c19;
 pub mod c20;
 pub mod c20b;
 pub mod stateful;
+pub mod venuecamp;
 use stateful::Target;
 
 pub fn run(ctx: &Ctx) -> Option<Report> {
+    let mut r = run_first_halves(ctx)?;
+    // the venue campaign (props/venuecamp.rs) is an additional half of nine properties
+    if venuecamp::PIDS.contains(&ctx.prop.as_str()) && std::env::var("MFV_NO_VENUECAMP").is_err() {
+        if std::env::var("MFV_ONLY_VENUECAMP").is_ok() {
+            let floor = r.nontrivial_floor;
+            r = Report::new("");
+            r.nontrivial_floor = floor.min(1);
+        }
+        venuecamp::run(ctx, &ctx.prop, &mut r);
+    }
+    Some(r)
+}
+
+fn run_first_halves(ctx: &Ctx) -> Option<Report> {
+    if std::env::var("MFV_ONLY_VENUECAMP").is_ok() && venuecamp::PIDS.contains(&ctx.prop.as_str()) {
+        return Some(Report::new(""));
+    }
     match ctx.prop.as_str() {
         "C01" => Some(stateful::run_target(ctx, Target::C01)),
         "C02" => Some(stateful::run_target(ctx, Target::C02)),
@@ -113,6 +131,9 @@ pub fn run(ctx: &Ctx) -> Option<Report> {
 }
 
 pub fn replay(ctx: &Ctx, case: &Value) -> Option<Report> {
+    if case.get("half").and_then(|h| h.as_str()) == Some("venuecamp") {
+        return Some(venuecamp::replay(ctx, &ctx.prop, case));
+    }
     match ctx.prop.as_str() {
         "C01" => Some(stateful::replay_target(ctx, Target::C01, case)),
         "C02" => Some(stateful::replay_target(ctx, Target::C02, case)),
